@@ -157,7 +157,7 @@ pub const LAZY_REGEXES: [(&str, &[&str]); 6] = [
     (".**o", &["o", "x"]),
 ];
 const INTS: [i64; 11] = [-1, 0, 1, 2, 3, 10, 255, 1000, -7, 64, 9007199254740993];
-const FLOATS: [f64; 9] = [0.0, 1.5, -2.5, 3.0, 1e300, -0.0, 1.0, 9007199254740993.0, 9.223372036854775807e18];
+const FLOATS: [f64; 12] = [0.0, 1.5, -2.5, 3.0, 1e300, -0.0, 1.0, 9007199254740993.0, 9.223372036854775807e18, 0.10000000149011612, 16.700000762939453, 0.30000001192092896];
 pub const IDENT_NAMES: [&str; 10] = [
     "A", "B", "C", "D", "sel", "android", "order", "nothing", "allow", "offline",
 ];
@@ -357,7 +357,10 @@ fn gen_field(rng: &mut Rng, k: &Knobs, prefer: Option<&str>) -> String {
     match rng.weighted(&w) {
         0 => (*rng.pick(&FIELDS)).to_owned(),
         1 => {
-            if rng.chance(1, 4) {
+            if rng.chance(1, 8) {
+                // an all-digit segment is a key like any other ("hosts.0" is not an index)
+                format!("{}.{}", rng.pick(&["arr", "n", "objs"]), rng.below(3))
+            } else if rng.chance(1, 4) {
                 format!("{}.{}.{}", rng.pick(&NEST_FIELDS), rng.pick(&NEST_FIELDS), rng.pick(&FIELDS))
             } else {
                 format!("{}.{}", rng.pick(&NEST_FIELDS), rng.pick(&FIELDS))
@@ -1281,6 +1284,11 @@ fn gen_obj(rng: &mut Rng, node: &Schema, k: &Knobs, depth: usize) -> Vec<(String
                     )
                 }
             }
+        } else if objlike && child.children.iter().all(|(ck, _)| ck.chars().all(|c| c.is_ascii_digit())) && rng.chance(1, 2) {
+            // the rule writes digit segments under this key: an array in that place is the
+            // interesting document (representations must agree that "k.0" does not index it)
+            let n = 1 + rng.below(3);
+            MVal::Arr((0..n).map(|i| gen_leaf(rng, &child.children[i % child.children.len()].1, k)).collect())
         } else if objlike && (child.values.is_empty() || rng.chance(3, 4)) && depth < 6 {
             let r = rng.below(100);
             if r < 65 {
